@@ -47,6 +47,13 @@ func vrtHarness_C07_silenceTime() {
 	ctx, cancel := context.WithTimeout(context.Background(), bound+2*time.Second)
 	defer cancel()
 	vrtBeyondHorizon()
+	if vrtChoice(2) == 1 {
+		// an earlier query with a short deadline of its own has already given up on this silent server
+		ctx1, cancel1 := context.WithTimeout(context.Background(), time.Second)
+		_, err1 := t.ExchangeContext(ctx1, vrtWire(vrtU16(), 99))
+		cancel1()
+		vrtCover("an earlier query with a short deadline timed out", err1 != nil)
+	}
 	t0 := time.Now()
 	_, err := t.ExchangeContext(ctx, vrtWire(vrtU16(), 100))
 	el := time.Since(t0)
